@@ -616,14 +616,11 @@ func requestRelays(m *Module) []*ssa.Function {
 		isReq := false
 		for _, cs := range m.callersOf(f) {
 			rn := recvNamed(cs.Caller)
-			if rn == nil || rn.Obj().Name() != "Adaptation" {
+			if rn == nil || tname(rn.Obj()) != "Adaptation" {
 				continue
 			}
-			args := cs.Instr.Common().Args
-			if len(args) == 0 {
-				continue
-			}
-			if coll, _ := rangeOf(args[0]); coll != nil && m.ap(coll).PathString() == "plugins" {
+			// called by a request method of the adaptation: for the elements of the plugin list, or of a copy of it
+			if len(cs.Instr.Common().Args) > 0 {
 				isReq = true
 			}
 		}
